@@ -175,7 +175,7 @@ func (h *Hist) pickBranch() (string, bool) {
 	return ks[h.r.intn(len(ks))], true
 }
 
-var branchNames = []string{"main", "dev", "de", "dev2", "feature", "a", "ab", "abc", "x-1", "v1.0", "b_2", "head", "m", "z"}
+var branchNames = []string{"main", "dev", "de", "dev2", "feature", "a", "ab", "abc", "x-1", "v1.0", "b_2", "head", "m", "z", ".wip", ".x", "a.", "..."}
 
 func (h *Hist) content() []byte {
 	switch h.r.intn(6) {
@@ -580,6 +580,31 @@ func (h *Hist) step() {
 			}
 			h.X(tz, "status")
 		}
+	case "nested-ignore-probe":
+		// an ignored directory at depth 2 or more, named as the argument of `add` in several spellings, and an
+		// ignore entry of two components below an added ancestor: what is ignored is decided from the path
+		// relative to the repository, not to the argument
+		outer, name := h.comp(), h.comp()
+		if outer == name {
+			break
+		}
+		two := r.chance(1, 3)
+		if two {
+			h.W("write", ".goitignore", []byte(outer+"/"+name+"/\n"))
+		} else {
+			h.W("write", ".goitignore", []byte(name+"/\n"))
+		}
+		h.W("write", outer+"/"+name+"/gen", h.content())
+		h.W("write", outer+"/"+name+"/deep/g2", h.content())
+		h.W("write", outer+"/kept", h.content())
+		if two {
+			h.X(tz, "add", outer)
+		} else {
+			h.X(tz, "add", r.pick([]string{outer + "/" + name, outer + "/" + name + "/", outer + "/" + name + "/deep", "./" + outer + "/" + name}))
+		}
+		h.X(tz, "status")
+		h.X(tz, "add", r.pick([]string{outer, ".", outer + "/"}))
+		h.X(tz, "status")
 	case "add":
 		var args []string
 		n := 1 + r.intn(3)
@@ -719,6 +744,10 @@ func (h *Hist) step() {
 		n := len(parseLogLines(h.obs.LogHead))
 		k := r.intn(n + 2)
 		arg := fmt.Sprintf("HEAD@{%d}", k)
+		if r.chance(1, 6) {
+			// the number is decimal whatever its spelling: leading zeros (010 is ten, 08 is eight)
+			arg = fmt.Sprintf("HEAD@{%s%d}", r.pick([]string{"0", "00", "000"}), k)
+		}
 		if r.chance(1, 10) {
 			arg = r.pick([]string{"HEAD", "HEAD@{}", "HEAD@{x}", "xHEAD@{1}", "HEAD@{1}x", "HEAD@{-1}", "head@{0}", "HEAD@{1}HEAD@{0}", "HEAD@{99999999999999999999}", ""})
 		}
@@ -985,6 +1014,24 @@ func runHistCase(ctx *Ctx, cfg *HistCfg, r *rng, idx int) (Case, []string, []Fin
 		off := r.intn(len(cands))
 		for i := range cands {
 			h.X(0, cands[(i+off)%len(cands)]...)
+		}
+		// malformed variants of an id that exists (a string that merely contains 40 hex digits is not an id)
+		var ids []string
+		for id := range h.obs.Objects {
+			ids = append(ids, id)
+		}
+		sort.Strings(ids)
+		if len(ids) > 0 {
+			id := ids[r.intn(len(ids))]
+			for _, v := range []string{"x" + id, "g" + id, "HEAD:" + id, "'" + id + "'", " " + id, id + "~", id + " ", "ab" + id, strings.ToUpper(id), id[:39] + "G", "-" + id} {
+				h.X(0, "cat-file", r.pick([]string{"-p", "-t"}), v)
+				if r.chance(1, 3) {
+					h.X(0, "update-ref", "refs/heads/main", v)
+				}
+				if r.chance(1, 3) {
+					h.X(0, "rev-parse", v)
+				}
+			}
 		}
 	}
 	c := Case{Name: fmt.Sprintf("hist-%d", idx), Lines: h.lines, Tag: fmt.Sprintf("steps<%d", (len(h.lines)/10+1)*10)}
